@@ -24,7 +24,7 @@ def run(ctx):
         "clean_mathml, the chemistry pass and trim_element are NOT modelled: for them the property is decided on the implementation, tree by tree, by the Lean checker MC.Spec.Canon.conserves",
         "the documented normalizations are the character homomorphism MC.Spec.Canon.expand followed by collapse (hyphen runs); expandChar_nil_iff and collapse_filter bound what they can hide: "
         "only white space, the four invisible operators and the length of a hyphen run",
-        "python's xml.etree parser reads both the input and the returned string"], extra_modules=["MC.Props.C01Clean"])
+        "python's xml.etree parser reads both the input and the returned string"], extra_modules=["MC.Props.C01Clean", "MC.Props.C01Trim"])
     rng = ctx.rng
     n = 6000 if ctx.tier == "quick" else 150000
     results = canon_run.run_stream(ctx, im, mo, n, canon_run.LOCALES)
@@ -45,6 +45,52 @@ def run(ctx):
         creqs, keep = [], []
         for x, r in zip(xmls, rep):
             item = {"xml": x, "locale": [block, dec], "reply": r, "lines": pre[1:] + [{"op": "set_mathml", "xml": x}], "textbook": True}
+            if r.get("r") == "ok":
+                inp, out = canon_run.xml_to_json(x), canon_run.xml_to_json(r["v"])
+                if inp is not None and out is not None:
+                    creqs.append({"op": "canon_check", "inp": inp, "out": out})
+                    keep.append(item)
+            tb.append(item)
+        for item, c in zip(keep, mo.run(creqs)):
+            item["check"] = c.get("v") if c.get("r") == "ok" else None
+    # rows over SMALL alphabets, one per merging pass (merge_dots, merge_primes, merge_chars, merge_vertical_bars, dashes, digit blocks): the passes count
+    # and index neighbouring tokens, so what matters is which tokens stand between the ones they merge -- random token text almost never lines three of them up
+    ALPHABETS = [[".", ".", "…", ","], ["'", "′", "″", "‵"], ["_", "_", "\u00a0"], ["|", "||", "‖", "∣"], ["-", "--", "−", "—"], [",", ".", " ", "\u00a0"], [":", "::", "/"], ["°", "'", "^", "¯"]]
+    fam = []
+    n_fam = 1200 if ctx.tier == "quick" else 40000
+    for q in range(n_fam):
+        alpha = ALPHABETS[q % len(ALPHABETS)]
+        def other():
+            r = rng.random()
+            if r < 0.35:
+                return N("mi", text=rng.choice("abxyzn"))
+            if r < 0.6:
+                return N("mn", text=rng.choice(["1", "2", "234", "5", "10", "000"]))
+            if r < 0.75:
+                return N("mo", text=rng.choice(["+", "=", "(", ")", "-"]))
+            if r < 0.85:
+                return N(rng.choice(["msup", "msub"]), [N("mi", text=rng.choice("xyz")), N("mn", text=rng.choice(["2", "3"]))])
+            if r < 0.92:
+                return N("mtext", text=rng.choice(["if", " ", "and"]))
+            return N("mrow", [N("mi", text="c"), N("mo", text=rng.choice(alpha))])
+        kids = []
+        for _ in range(rng.randrange(3, 10)):
+            if rng.random() < 0.5:
+                kids.append(N(rng.choice(["mo", "mo", "mo", "mi", "mtext"]), text=rng.choice(alpha)))
+            else:
+                kids.append(other())
+        row = N("mrow", kids)
+        wrap = rng.random()
+        tree = N("math", [row]) if wrap < 0.6 else N("math", [N("msqrt", kids)]) if wrap < 0.75 else N("math", [N("mfrac", [row, N("mn", text="7")])]) if wrap < 0.9 else N("math", kids)
+        fam.append(tree)
+    for block, dec in canon_run.LOCALES[:2]:
+        pre = [{"op": "session"}, {"op": "rules_dir", "dir": core.rules_dir()}, {"op": "set_pref", "name": "BlockSeparators", "value": block},
+               {"op": "set_pref", "name": "DecimalSeparators", "value": dec}]
+        xmls = [canon_run.to_xml(x) for x in (fam if (block, dec) == canon_run.LOCALES[0] else fam[::4])]
+        rep = im.run(pre + [{"op": "set_mathml", "xml": x} for x in xmls], prelude=pre)[len(pre):]
+        creqs, keep = [], []
+        for x, r in zip(xmls, rep):
+            item = {"xml": x, "locale": [block, dec], "reply": r, "lines": pre[1:] + [{"op": "set_mathml", "xml": x}], "family": True}
             if r.get("r") == "ok":
                 inp, out = canon_run.xml_to_json(x), canon_run.xml_to_json(r["v"])
                 if inp is not None and out is not None:
@@ -96,7 +142,7 @@ def run(ctx):
                 "with dashes, primes, dots, bars, invisible operators, digit groups, white space) and textbook expressions with locale-formatted numbers and chemical symbols, each under 4 settings of the "
                 "number separators; the Lean checker compares normalised visible text of input and output. non-trivial = the raw text of the output differs from the input's (something was merged, "
                 "normalised, inserted or removed)",
-        "textbook_trees": len(tb),
+        "textbook_trees": len([x for x in tb if x.get("textbook")]), "merge_pass_family_rows": len([x for x in tb if x.get("family")]),
         "impl_vs_oracle_failures": [{k: v for k, v in f.items() if k != "lines"} for f in oracle_fail[:8]], "n_oracle_failures": len(oracle_fail),
         "model_vs_impl_disagreements": [{"xml": r["xml"], "impl": r["impl_shape"] if r["impl_shape"] is not None else r["impl"], "model": r["model_shape"]} for r in cl_dis[:8]],
         "n_disagreements": len(cl_dis),
